@@ -460,6 +460,47 @@ struct ClosureInfo {
     body_is_block: bool,
 }
 
+/// R14 translation of a boolean closure body into a spec expression
+fn auto_spec(e: &syn::Expr, map: &[(String, String)]) -> Result<String, String> {
+    use quote::ToTokens;
+    match e {
+        syn::Expr::Paren(p) => Ok(format!("({})", auto_spec(&p.expr, map)?)),
+        syn::Expr::Group(g) => auto_spec(&g.expr, map),
+        syn::Expr::Block(b) if b.block.stmts.len() == 1 => match &b.block.stmts[0] {
+            syn::Stmt::Expr(x, None) => auto_spec(x, map),
+            _ => Err("block body is not a single expression".into()),
+        },
+        syn::Expr::Unary(u) if matches!(u.op, syn::UnOp::Not(_)) => Ok(format!("!({})", auto_spec(&u.expr, map)?)),
+        syn::Expr::Binary(b) => {
+            let op = match b.op {
+                syn::BinOp::And(_) => "&&",
+                syn::BinOp::Or(_) => "||",
+                syn::BinOp::Eq(_) => "==",
+                syn::BinOp::Ne(_) => "!=",
+                _ => return Err("operator outside { !, &&, ||, ==, != }".into()),
+            };
+            Ok(format!("({} {} {})", auto_spec(&b.left, map)?, op, auto_spec(&b.right, map)?))
+        }
+        syn::Expr::Lit(l) if matches!(l.lit, syn::Lit::Bool(_)) => Ok(l.to_token_stream().to_string()),
+        syn::Expr::Path(p) => Ok(p.to_token_stream().to_string()),
+        syn::Expr::MethodCall(m) => {
+            let name = m.method.to_string();
+            let tpl = map.iter().find(|(k, _)| *k == name).map(|(_, v)| v.clone()).ok_or(format!("method `{}` has no declared spec twin", name))?;
+            if m.args.len() != 1 {
+                return Err(format!("method `{}`: expected one argument", name));
+            }
+            let simple = |x: &syn::Expr| matches!(x, syn::Expr::Path(_) | syn::Expr::Field(_));
+            if !simple(&m.receiver) || !simple(&m.args[0]) {
+                return Err(format!("method `{}`: receiver / argument is not a plain variable or field", name));
+            }
+            let recv = m.receiver.to_token_stream().to_string().replace(' ', "");
+            let arg = m.args[0].to_token_stream().to_string().replace(' ', "");
+            Ok(tpl.replace("{recv}", &recv).replace("{arg}", &arg))
+        }
+        _ => Err("expression form outside the R14 subset".into()),
+    }
+}
+
 fn binop_path(op: &syn::BinOp) -> Option<&'static str> {
     Some(match op {
         syn::BinOp::Add(_) => "::core::ops::Add::add",
@@ -1303,7 +1344,19 @@ fn finish(
                 }
             }
             let ret = v["ret"].as_str().unwrap_or("");
-            let spec = v["spec"].as_str().unwrap_or("");
+            let mut spec_owned = v["spec"].as_str().unwrap_or("").to_string();
+            if let Some(auto) = v["auto"].as_array() {
+                // R14: the closure's postcondition is DERIVED from its body: `r == <body with every whitelisted exec
+                // predicate replaced by its spec twin>`; anything else in the body is an error (exit 2), never a guess
+                let map: Vec<(String, String)> = auto.iter().filter_map(|p| Some((p[0].as_str()?.to_string(), p[1].as_str()?.to_string()))).collect();
+                let body_txt = &src[c.body_start..c.body_end];
+                let e: syn::Expr = syn::parse_str(body_txt).map_err(|e| format!("closure {} auto: cannot parse body: {}", idx, e))?;
+                let t = auto_spec(&e, &map).map_err(|e| format!("closure {} auto: {}", idx, e))?;
+                let rname = ret.split(':').next().unwrap_or("r").trim().to_string();
+                spec_owned = format!("ensures {} == ({})", rname, t);
+                cx.count("R14(closure postcondition derived from its body through the declared exec->spec predicate map)");
+            }
+            let spec = spec_owned.as_str();
             check_clause_fragment(spec, &["requires", "ensures"])?;
             if !ret.is_empty() || !spec.trim().is_empty() {
                 if c.has_ret {
